@@ -142,10 +142,12 @@ def definitely_raises(p):
 
 
 def pathish(v):
-    if v[0] in ('P', 'D', 'X', 'W'):
+    if v[0] in ('P', 'D', 'X', 'W', 'Cls'):
         return True
     if v[0] == 'T':
         return any(pathish(x) for x in v[1])
+    if v[0] == 'M':
+        return any(pathish(x) for x in v[1].values())
     return False
 
 
@@ -272,6 +274,26 @@ class Interp:
             return self.name_value(e.id, env, cls)
         if isinstance(e, (ast.Tuple, ast.List)):
             return ('T', [self.ev(x, env, cls) for x in e.elts])
+        if isinstance(e, ast.Dict):
+            # a constant-keyed table (dispatch on file_type through a dict)
+            keys = [self.ev(k, env, cls) if k is not None else O for k in e.keys]
+            vals = [self.ev(v, env, cls) for v in e.values]
+            if all(k[0] == 'S' for k in keys):
+                return ('M', {k[1]: v for k, v in zip(keys, vals)})
+            return ('X',) if any(pathish(v) for v in vals) else O
+        if isinstance(e, ast.Subscript):
+            base = self.ev(e.value, env, cls)
+            idx = self.ev(e.slice, env, cls)
+            if base[0] == 'M':
+                if idx[0] == 'S' and idx[1] in base[1]:
+                    return base[1][idx[1]]
+                return ('X',) if any(pathish(v) for v in base[1].values()) else O
+            if base[0] == 'T':
+                if isinstance(e.slice, ast.Constant) and isinstance(e.slice.value, int) \
+                        and -len(base[1]) <= e.slice.value < len(base[1]):
+                    return base[1][e.slice.value]
+                return ('X',) if pathish(base) else O
+            return ('X',) if base[0] == 'X' else O
         if isinstance(e, ast.IfExp):
             t = self.tv(e.test, env, cls)
             if t is True:
@@ -336,12 +358,20 @@ class Interp:
                 return self.ev(e.args[0], env, cls)
             if isinstance(f, ast.Attribute) and f.attr == 'fspath' and len(e.args) == 1:
                 return self.ev(e.args[0], env, cls)
+            if isinstance(f, ast.Name) and f.id == 'bool' and len(e.args) == 1 and 'bool' not in env:
+                v = self.ev(e.args[0], env, cls)
+                return v if v == OW else O
             if isinstance(f, ast.Name):
                 fv = self.name_value(f.id, env, cls)
                 if fv[0] == 'Cls':
                     return self.instance(e, fv, env, cls)[0]
                 if cls is not None and f.id in cls.functions and f.id not in env:
                     return self.ret_value(cls.functions[f.id], cls, e, env, cls, {}, 'staticmethod')
+                return O
+            if isinstance(f, ast.Subscript):
+                fv = self.ev(f, env, cls)
+                if fv[0] == 'Cls':
+                    return self.instance(e, fv, env, cls)[0]
                 return O
             if isinstance(f, ast.Attribute):
                 if isinstance(f.value, ast.Name) and f.value.id == 'self':
@@ -579,6 +609,13 @@ class Interp:
                 out.append(('Append', v[1]))
             return seq(out)
         # constructors of femio classes and module-level helpers
+        if isinstance(f, ast.Subscript):
+            fv = self.ev(f, env, cls)
+            if fv[0] == 'Cls':
+                out.append(self.instance(call, fv, env, cls)[1])
+                return seq(out)
+            if fv[0] == 'X':
+                raise TranslateError(f'call of an unknown table entry, line {call.lineno}')
         if isinstance(f, ast.Name):
             fv = self.name_value(f.id, env, cls)
             if fv[0] == 'Cls':
@@ -988,11 +1025,8 @@ def formats_of(w):
             for x in vs:
                 if isinstance(x, str):
                     found.append((n.lineno, n.col_offset, x))
-    out = []
-    for _, _, x in sorted(found):
-        if x not in out:
-            out.append(x)
-    return out
+    # canonical order: the programs do not depend on where a branch stands
+    return sorted({x for _, _, x in found})
 
 
 def translate(repo):
